@@ -137,6 +137,13 @@ pub struct Knobs {
     pub for_unsigned_down: bool,
     pub max_depth: u32,
     pub stmts: (usize, usize),
+    /// allow the power operator (exponents incl. zero and negative values)
+    pub power: bool,
+    /// VAR_TEMP sections whose initialisers can fault at run time
+    pub temp_init: bool,
+    /// loops with an empty body that wait for an input (end only by the execution budget when it stays FALSE);
+    /// never set by `swarm`: only a check that arms a budget for every cycle may enable it
+    pub busy_wait: bool,
 }
 
 impl Knobs {
@@ -150,11 +157,15 @@ impl Knobs {
             for_unsigned_down: j["for_unsigned_down"].as_bool().unwrap_or(false),
             max_depth: j["max_depth"].as_u64().unwrap_or(3) as u32,
             stmts: (j["stmts_lo"].as_u64().unwrap_or(3) as usize, j["stmts_hi"].as_u64().unwrap_or(12) as usize),
+            power: j["power"].as_bool().unwrap_or(false),
+            temp_init: j["temp_init"].as_bool().unwrap_or(false),
+            busy_wait: j["busy_wait"].as_bool().unwrap_or(false),
         }
     }
     pub fn to_json(&self) -> Json {
         json!({"boundary_pct": self.boundary_pct, "widening": self.widening, "case_exotic": self.case_exotic, "negation": self.negation,
-               "for_extreme": self.for_extreme, "for_unsigned_down": self.for_unsigned_down, "max_depth": self.max_depth, "stmts_lo": self.stmts.0, "stmts_hi": self.stmts.1})
+               "for_extreme": self.for_extreme, "for_unsigned_down": self.for_unsigned_down, "max_depth": self.max_depth, "stmts_lo": self.stmts.0, "stmts_hi": self.stmts.1,
+               "power": self.power, "temp_init": self.temp_init, "busy_wait": self.busy_wait})
     }
     pub fn swarm(r: &mut Rng) -> Knobs {
         Knobs {
@@ -166,6 +177,9 @@ impl Knobs {
             for_unsigned_down: r.chance(1, 5),
             max_depth: r.range(1, 4) as u32,
             stmts: (2, r.usize(4, 14)),
+            power: r.chance(1, 3),
+            temp_init: r.chance(1, 3),
+            busy_wait: false,
         }
     }
 }
@@ -308,7 +322,18 @@ impl<'a> Gen<'a> {
                     format!("({} {op} {})", self.expr(sc, t, d), self.expr(sc, t, d))
                 }
             },
-            t if t.is_int() => match self.r.below(16) {
+            t if t.is_int() => match self.r.below(if self.k.power { 18 } else { 16 }) {
+                16 | 17 => {
+                    // power: exponent zero, small, a run-time value (negative for signed types now and then)
+                    let e = match self.r.below(5) {
+                        0 => format!("{}#0", t.name()),
+                        1 => format!("{}#{}", t.name(), self.r.range(1, 3)),
+                        2 => format!("({} MOD {}#4)", self.expr(sc, t, d), t.name()),
+                        3 if t.is_signed() => format!("{}#-1", t.name()),
+                        _ => self.pick_var(sc, t).unwrap_or_else(|| format!("{}#2", t.name())),
+                    };
+                    format!("({} ** {e})", self.expr(sc, t, d))
+                }
                 0 | 1 => format!("({} + {})", self.expr(sc, t, d), self.expr(sc, t, d)),
                 2 => format!("({} - {})", self.expr(sc, t, d), self.expr(sc, t, d)),
                 3 => format!("({} * {})", self.expr(sc, t, d), self.expr(sc, t, d)),
@@ -341,7 +366,9 @@ impl<'a> Gen<'a> {
                 15 if t == Ty::Int => format!("LEN({})", self.expr(sc, Ty::Str, d)),
                 _ => format!("({} + {})", self.expr(sc, t, d), self.literal(t)),
             },
-            t if t.is_real() => match self.r.below(8) {
+            t if t.is_real() => match self.r.below(if self.k.power { 10 } else { 8 }) {
+                8 => format!("({} ** {})", self.expr(sc, t, d), self.expr(sc, t, d)),
+                9 => format!("({} ** {}#{}.0)", self.expr(sc, t, d), t.name(), self.r.range(-2, 3)),
                 0 => format!("({} + {})", self.expr(sc, t, d), self.expr(sc, t, d)),
                 1 => format!("({} - {})", self.expr(sc, t, d), self.expr(sc, t, d)),
                 2 => format!("({} * {})", self.expr(sc, t, d), self.expr(sc, t, d)),
@@ -395,6 +422,9 @@ impl<'a> Gen<'a> {
     /// one statement (possibly compound), as text
     pub fn stmt(&mut self, sc: &mut Scope, depth: u32) -> String {
         let compound_ok = depth < 2;
+        if self.k.busy_wait && depth == 0 && sc.ro.iter().any(|v| v.name == "in_b") && self.r.chance(1, 12) {
+            return if self.r.bool() { "(*busy*) REPEAT\n;\nUNTIL in_b END_REPEAT;".into() } else { "(*busy*) WHILE NOT in_b DO\n;\nEND_WHILE;".into() };
+        }
         let choice = self.r.below(if compound_ok { 20 } else { 9 });
         match choice {
             0..=4 => {
@@ -675,7 +705,14 @@ pub fn gen_project(r: &mut Rng, knobs: Knobs, size: (usize, usize, usize)) -> Js
         let (vars, text) = { let n_ = g.r.usize(1, 4); decl_vars(&mut g, "m", n_, true) };
         header.push_str(&text);
         header.push_str("  k0 : DINT;\n  k1 : INT;\n  tm : TON;\nEND_VAR\n");
+        let fb_temp = g.k.temp_init && g.r.bool();
+        if fb_temp {
+            header.push_str("VAR_TEMP\n  tq : DINT := DINT#1000 / (x + DINT#1);\nEND_VAR\n");
+        }
         let mut sc = Scope { vars, ..Scope::default() };
+        if fb_temp {
+            sc.ro.push(Var { name: "tq".into(), ty: Ty::DInt });
+        }
         sc.vars.push(Var { name: "y".into(), ty: Ty::DInt });
         sc.ro.push(Var { name: "x".into(), ty: Ty::DInt });
         sc.ro.push(Var { name: "go".into(), ty: Ty::Bool });
@@ -750,6 +787,12 @@ pub fn gen_project(r: &mut Rng, knobs: Knobs, size: (usize, usize, usize)) -> Js
             header.push_str(&format!("  out_lo AT %QB{} : BYTE;\n", g.r.below(4)));
         }
         header.push_str("END_VAR\n");
+        if g.k.temp_init && g.r.bool() {
+            // a non-constant initialiser that faults for some inputs (in_s = -1, in_i = 2)
+            header.push_str("VAR_TEMP\n  tq : DINT := DINT#1000 / (SINT_TO_DINT(in_s) + DINT#1);\n  tr : INT := INT#50 / (in_i - INT#2);\nEND_VAR\n");
+            sc.ro.push(Var { name: "tq".into(), ty: Ty::DInt });
+            sc.ro.push(Var { name: "tr".into(), ty: Ty::Int });
+        }
         sc.counters = vec!["k5:DINT".into(), "k4:LINT".into(), "k3:UINT".into(), "k2:SINT".into(), "k1:INT".into(), "k0:DINT".into()];
         g.r.shuffle(&mut sc.counters);
         sc.vars.push(Var { name: "out_d".into(), ty: Ty::DInt });
